@@ -209,3 +209,26 @@ Proof.
   destruct (writer_guarded tb SSetupPy) eqn:E3; [|exists SSetupPy; exact E3].
   destruct (writer_guarded tb SSetupCfg) eqn:E4; [|exists SSetupCfg; exact E4]. discriminate.
 Qed.
+
+(** ---- OS write errors (the variant [try_stores_os]) ---- *)
+Lemma try_stores_os_ok tb W cfg catches ds : forall stores fs,
+  try_stores_os tb W cfg catches (fun _ => true) ds fs stores = try_stores tb W cfg ds fs stores.
+Proof.
+  induction stores as [|st rest IH]; intros fs; simpl; [reflexivity|].
+  destruct (attempt W ds fs st) as [[[b' d] chs]|]; [|now rewrite IH].
+  destruct (writer_guarded tb (st_kind st) && dry_run cfg); reflexivity.
+Qed.
+
+(** a failing write of a catching writer: the manifest ends up empty, no change set, although the dry run promises one *)
+Definition w_fail_store (k : skind) : store := {| st_kind := k; st_path := [109%N]; st_deps := [] |}.
+Lemma write_failure_witness tb k (catches : skind -> bool) : catches k = true -> writer_guarded tb k = true ->
+  let fs := [([109%N], [9%N])] in
+  (* dry run: change set, file intact *)
+  try_stores_os tb toy_W (toy_cfg true []) catches (fun _ => false) [toy_dep] fs [w_fail_store k] =
+    ([store_added (w_fail_store k) [toy_dep]], fs, Some {| cs_path := [109%N]; cs_diff := [9%N; 0%N; 9%N; 100%N]; cs_changes := [(1%N, [])] |}) /\
+  (* real run with the write error: no change set, manifest truncated *)
+  snd (try_stores_os tb toy_W (toy_cfg false []) catches (fun _ => false) [toy_dep] fs [w_fail_store k]) = None /\
+  lookup (snd (fst (try_stores_os tb toy_W (toy_cfg false []) catches (fun _ => false) [toy_dep] fs [w_fail_store k]))) [109%N] = Some [].
+Proof.
+  intros Hc Hg fs. unfold fs, w_fail_store. cbn -[writer_guarded]. rewrite Hg, Hc. cbn. repeat split; reflexivity.
+Qed.
